@@ -616,3 +616,67 @@ BENIGN = [
         {"file": NF, "old": "        self._required_species = [Species(s, **self._species_kwargs) for s in speclist]\n", "new": "        self._required_species = [Species(s, **self._species_kwargs) for s in speclist]\n        self._spc = None\n"}]},
     {"name": "filter-condition-restructured", "file": NF, "old": "        if self._allowed_species:\n            if not all(", "new": "        if len(self._allowed_species) > 0 and self._allowed_species:\n            if not all("},
 ]
+
+# --- spellings accepted since the second hardening wave (each with the defect it must still see) ---------------------------------
+_ADD_OLD = ("        if not isinstance(reaction, Reaction):\n            reaction = _reaction_factory(*reaction)\n\n"
+            "        # return empty set for updating if it is a fake react_string\n        if not reaction:\n            return set(), set(), None\n\n"
+            "        if self._allowed_species:\n            if not all(\n                [\n                    rp in self._allowed_species\n"
+            "                    for rp in reaction.reactants + reaction.products\n                ]\n            ):\n"
+            "                self._skipped_reactions.append(reaction)\n                return set(), set(), None\n\n"
+            "        self.reaction_list.append(reaction)\n        new_reactants = set(reaction.reactants).difference(self._reactants)\n"
+            "        new_products = set(reaction.products).difference(self._products)\n        self._reactants.update(new_reactants)\n        self._products.update(new_products)\n")
+_ADD_TAIL = ("        # if len(self.reaction_list) % 100 == 0:\n        #     print(\"Processing: {} reactions...\".format(len(self.reaction_list)))\n"
+             "        return new_reactants, new_products, reaction\n")
+
+
+def _add_pipeline(members="entry.reactants + entry.products", admit_products=True):
+    """_add_reaction as a pipeline of private methods: conversion (value helper with an early return), the filter (predicate
+    helper with a guard clause), the bookkeeping of an admitted reaction (statement helper whose result is returned)"""
+    return [{"file": NF, "old": _ADD_OLD + _ADD_TAIL,
+             "new": "        reaction = self._coerce(reaction)\n\n        if not reaction:\n            return set(), set(), None\n\n"
+                    "        if not self._admits(reaction):\n            self._skipped_reactions.append(reaction)\n            return set(), set(), None\n\n"
+                    "        return self._admit(reaction)\n\n"
+                    "    @staticmethod\n    def _coerce(entry):\n        if isinstance(entry, Reaction):\n            return entry\n        return _reaction_factory(*entry)\n\n"
+                    "    def _admits(self, entry):\n        if not self._allowed_species:\n            return True\n        involved = " + members + "\n"
+                    "        return all(rp in self._allowed_species for rp in involved)\n\n"
+                    "    def _admit(self, entry):\n        self.reaction_list.append(entry)\n        fresh_r = set(entry.reactants).difference(self._reactants)\n"
+                    "        fresh_p = set(entry.products).difference(self._products)\n        self._reactants.update(fresh_r)\n"
+                    + ("        self._products.update(fresh_p)\n" if admit_products else "") + "        return fresh_r, fresh_p, entry\n"}]
+
+
+_DESORB_OLD = ('        options = ["thermal", "photon", "cosmic-ray"]\n        rtypes = [\n            ReactionType.GRAIN_DESORB_THERMAL,\n            ReactionType.GRAIN_DESORB_PHOTON,\n'
+               '            ReactionType.GRAIN_DESORB_COSMICRAY,\n        ]\n        for option, rtype in zip(options, rtypes):\n            if self.option(f"append-{option}-desorption"):\n')
+
+
+def _desorb_table(third="append-cosmic-ray-desorption"):
+    return [{"file": EXT, "old": "    def __init__(self):\n        super(ExtendCommand, self).__init__()\n",
+             "new": "    _DESORB = (\n        (\"append-thermal-desorption\", ReactionType.GRAIN_DESORB_THERMAL),\n        (\"append-photon-desorption\", ReactionType.GRAIN_DESORB_PHOTON),\n"
+                    "        (\"" + third + "\", ReactionType.GRAIN_DESORB_COSMICRAY),\n    )\n\n    def __init__(self):\n        super(ExtendCommand, self).__init__()\n"},
+            {"file": EXT, "old": _DESORB_OLD, "new": "        for flag, rtype in self._DESORB:\n            if self.option(flag):\n"}]
+
+
+_SCAN_OLD = ("        seen = {}\n        dupes = []\n        dupidx = []\n\n        check_list = reactions\n")
+_SCAN_LOOP = ("        for idx, chk in enumerate(\n            tqdm(check_list, desc=\"Checking Repeated Reactions...\")\n        ):\n            if chk not in seen:\n                seen[chk] = [idx]\n"
+              "            else:\n                if len(seen[chk]) >= 1:\n                    dupes.append(reactions[idx])\n                    dupidx.append(idx)\n                seen[chk].append(idx)\n")
+
+
+def _scan_helper():
+    return [{"file": NF, "old": _SCAN_OLD, "new": "        check_list = reactions\n"},
+            {"file": NF, "old": _SCAN_LOOP, "new": "        seen, dupidx = self._later_copies(check_list)\n        dupes = [reactions[i] for i in dupidx]\n"},
+            {"file": NF, "old": "    def find_source_sink(self)", "new": "    @staticmethod\n    def _later_copies(keys):\n        groups = {}\n        later = []\n        for pos, key in enumerate(tqdm(keys)):\n"
+             "            if key not in groups:\n                groups[key] = [pos]\n            else:\n                later.append(pos)\n                groups[key].append(pos)\n"
+             "        return groups, later\n\n    def find_source_sink(self)"}]
+
+
+MUTANTS += [
+    {"name": "pipeline-filter-looks-at-reactants-only", "edits": _add_pipeline(members="entry.reactants"), "rules": ["R2"]},
+    {"name": "pipeline-admit-forgets-products", "edits": _add_pipeline(admit_products=False), "rules": ["R1", "R2"]},
+    {"name": "class-table-option-misspelt", "edits": _desorb_table("append-cosmicray-desorption"), "rules": ["R3"]},
+    {"name": "scan-helper-and-removal-by-object", "edits": _scan_helper() + [
+        {"file": EXT, "old": "            _, dupidx, _ = net.find_duplicate_reaction()\n            net.remove_reaction(dupidx)", "new": "            dupes, _, _ = net.find_duplicate_reaction()\n            net.remove_reaction(dupes)"}], "rules": ["R5"]},
+]
+BENIGN += [
+    {"name": "add-reaction-pipeline-of-private-methods", "edits": _add_pipeline()},
+    {"name": "desorption-options-class-table", "edits": _desorb_table()},
+    {"name": "duplicate-scan-in-static-helper", "edits": _scan_helper()},
+]
